@@ -9,6 +9,7 @@ package operationparser
 import (
 	"encoding/json"
 	"fmt"
+	"math"
 
 	"github.com/pkg/errors"
 
@@ -261,8 +262,27 @@ func (p *Parser) validateNonce(nonce string) error {
 
 func (p *Parser) getAnchorUntil(from, until int64) int64 {
 	if from != 0 && until == 0 {
-		return from + int64(p.MaxOperationTimeDelta)
+		return addTimeDelta(from, p.MaxOperationTimeDelta)
 	}
 
 	return until
+}
+
+// addTimeDelta adds the (unsigned) delta to the (signed) time; a sum beyond the largest time is that largest time.
+func addTimeDelta(from int64, delta uint64) int64 {
+	for delta > 0 {
+		step := delta
+		if step > math.MaxInt64 {
+			step = math.MaxInt64
+		}
+
+		if from > 0 && int64(step) > math.MaxInt64-from {
+			return math.MaxInt64
+		}
+
+		from += int64(step)
+		delta -= step
+	}
+
+	return from
 }
